@@ -514,4 +514,105 @@ theorem Iter.script_outs (bad : Term → Bool) : ∀ (rs : List Read) (e : Iter)
         simp only [Bool.false_eq_true, if_false]
         rw [← hst, ih _ (n - takeUsed (e.drainE bad k)) (by omega)]
 
+theorem Iter.takeE_congr (bad bad' : Term → Bool) : ∀ (k : Nat) (e : Iter),
+    (∀ q ∈ e.drainQ bad k, ∀ t ∈ q, bad' t = bad t) → e.takeE bad' k = e.takeE bad k := by
+  intro k
+  induction k with
+  | zero => intro e _; rfl
+  | succ k ih =>
+    intro e h
+    obtain ⟨h1, _⟩ := Iter.stepE_congr bad bad' e (h _ (by simp [Iter.drainQ]))
+    cases hs : e.stepE bad with
+    | mk o e' =>
+      cases o with
+      | stop => simp [Iter.takeE, h1, hs]
+      | raised t => simp [Iter.takeE, h1, hs]
+      | item x =>
+        have h3 := ih e' (fun q hq => h q (by simp [Iter.drainQ, hs, hq]))
+        simp [Iter.takeE, h1, hs, h3]
+
+/-! ### the lookup API: string keys of `lookupK` / `getOpsK` are `allLookup` / `getOps` -/
+
+theorem OpMethod.keysK_str (o : OpMethod) (k : Name) : o.keysK.contains (.str k) = o.keys.contains k := by
+  cases hr : o.rev <;> simp [OpMethod.keysK, OpMethod.keys, hr]
+
+theorem lookupK_str (ops : List OpMethod) (k : Name) : lookupK ops (.str k) = allLookup ops k := by
+  simp only [lookupK, allLookup, OpMethod.keysK_str]
+
+theorem mapM_lookupK_str (ops : List OpMethod) : ∀ (ks : List Name),
+    (ks.map OpKey.str).mapM (lookupK ops) = ks.mapM (allLookup ops) := by
+  intro ks
+  induction ks with
+  | nil => rfl
+  | cons k r ih => simp only [List.map_cons, List.mapM_cons, lookupK_str, ih]
+
+theorem getOpsK_str (ops : List OpMethod) (keys without : List Name) :
+    getOpsK ops (keys.map .str) (without.map .str) = getOps ops keys without := by
+  simp only [getOpsK, getOps, mapM_lookupK_str]
+
+/-! ### `OpMethod.get` in general: the entries filed under the keys, minus those under `without` -/
+
+theorem lookupK_eq (ops : List OpMethod) (k : OpKey) :
+    lookupK ops k = if OpMethod.under ops k = [] then none else some (OpMethod.under ops k) := by
+  unfold lookupK OpMethod.under
+  cases h : ops.filter (fun o => o.keysK.contains k) <;> simp
+
+theorem mapM_lookupK_some (ops : List OpMethod) : ∀ (ks : List OpKey), (∀ k ∈ ks, OpMethod.under ops k ≠ []) →
+    ks.mapM (lookupK ops) = some (ks.map (OpMethod.under ops)) := by
+  intro ks
+  induction ks with
+  | nil => intro _; rfl
+  | cons k r ih =>
+    intro h
+    have h1 := h k List.mem_cons_self
+    rw [List.mapM_cons, lookupK_eq, if_neg h1, ih (fun k hk => h k (List.mem_cons_of_mem _ hk))]
+    rfl
+
+theorem mapM_lookupK_none (ops : List OpMethod) : ∀ (ks : List OpKey), (∃ k ∈ ks, OpMethod.under ops k = []) →
+    ks.mapM (lookupK ops) = none := by
+  intro ks
+  induction ks with
+  | nil => intro ⟨k, hk, _⟩; simp at hk
+  | cons k r ih =>
+    intro ⟨k', hk', h0⟩
+    rw [List.mapM_cons, lookupK_eq]
+    by_cases h1 : OpMethod.under ops k = []
+    · simp [h1]
+    · rcases List.mem_cons.mp hk' with rfl | hk'
+      · exact absurd h0 h1
+      · rw [if_neg h1, ih ⟨k', hk', h0⟩]; rfl
+
+theorem getOpsK_some (ops : List OpMethod) (keys without : List OpKey)
+    (h : ∀ k ∈ keys ++ without, OpMethod.under ops k ≠ []) :
+    getOpsK ops keys without =
+      some ((keys.flatMap (OpMethod.under ops)).filter fun o => !(without.any fun k => o.keysK.contains k)) := by
+  unfold getOpsK
+  rw [mapM_lookupK_some ops without (fun k hk => h k (List.mem_append_right _ hk)),
+    mapM_lookupK_some ops keys (fun k hk => h k (List.mem_append_left _ hk))]
+  simp only [Option.bind_eq_bind, Option.bind_some, Option.pure_def, Option.some.injEq, List.flatMap_def]
+  apply List.filter_congr
+  intro o ho
+  congr 1
+  obtain ⟨l, hl, hol⟩ := List.mem_flatten.mp ho
+  obtain ⟨k, _, rfl⟩ := List.mem_map.mp hl
+  have hops : o ∈ ops := (List.mem_filter.mp hol).1
+  rw [Bool.eq_iff_iff]
+  simp only [List.contains_iff_mem, List.mem_flatten, List.mem_map, List.any_eq_true]
+  constructor
+  · rintro ⟨l', ⟨k', hk', rfl⟩, ho'⟩
+    exact ⟨k', hk', by simpa using (List.mem_filter.mp ho').2⟩
+  · rintro ⟨k', hk', hc⟩
+    exact ⟨_, ⟨k', hk', rfl⟩, List.mem_filter.mpr ⟨hops, by simpa using hc⟩⟩
+
+theorem getOpsK_none (ops : List OpMethod) (keys without : List OpKey)
+    (h : ∃ k ∈ keys ++ without, OpMethod.under ops k = []) : getOpsK ops keys without = none := by
+  unfold getOpsK
+  obtain ⟨k, hk, h0⟩ := h
+  by_cases hw : ∃ k ∈ without, OpMethod.under ops k = []
+  · rw [mapM_lookupK_none ops without hw]; rfl
+  · have hw' : ∀ k ∈ without, OpMethod.under ops k ≠ [] := fun k hk h => hw ⟨k, hk, h⟩
+    rw [mapM_lookupK_some ops without hw']
+    rcases List.mem_append.mp hk with hk | hk
+    · rw [mapM_lookupK_none ops keys ⟨k, hk, h0⟩]; rfl
+    · exact absurd h0 (hw' k hk)
 end ALV.C01
